@@ -14,6 +14,12 @@ Sub-checks
   class_runs                   every class repeated 300 / 1000 times in each of {fresh, connected, closed}, both handler kinds, plain and
                                with garbage / truncated datagrams / acks / heartbeats interleaved (thresholds that only long runs reach)
   counter_wrap_long_run        one fresh handler, > 2^16 registration requests without any shortcut (thorough only)
+  related_value_histories      a datagram of every HSTRP packet type whose payload is a PDU of every RCP / LP / TMP / RRS layout the
+                               library parses (or whose DeviceID option / text) carries a radio's four address octets in either
+                               order, before and between that radio's own RRS messages (and those of the octet-reversed radio and
+                               of near-twin addresses); every history uses an address the process never parsed before
+Preludes (PRELUDE_OPS): the case's address octets through the sibling parsers / repr of every carrier form in both octet orders, and
+another handler instance serving the octet-reversed radios.
 """
 from __future__ import annotations
 
@@ -33,7 +39,10 @@ RULE = (
     "former, garbage)}; (a) ALL class sequences up to 'exhaustive_history_length' with position-dependent concrete fields, "
     "(b) random histories up to 50 (quick) / 200 (thorough) steps, a step being one datagram or a repeated block (the same op or 2-3 ops, 2..300 times, also with garbage / acks interleaved), with random S/N, option lists (0-3 documented options), "
     "radio addresses, payloads and damage, optionally starting from an own S/N counter near 2^16, (c) the same classes "
-    "injected into two handlers wired back to back.  Oracle: reference model (connected flag, registry) + reference decoding "
+    "injected into two handlers wired back to back, (d) 'related value' histories and random blocks: a datagram of every packet type (data, reject, "
+    "ack / connect / close / heartbeat with payload) carrying a PDU of every RCP / LP / TMP / RRS layout the library parses (reference encoder) whose "
+    "address / id slots hold a radio's octets as they are or reversed, followed by that radio's registration / going-offline / status check, with an "
+    "address that is fresh in the process.  Oracle: reference model (connected flag, registry) + reference decoding "
     "of every emitted datagram.  Distinct = hash of the op sequence (enumeration: distinct by construction); non-trivial = the "
     "history contains a connect and a data message, or an ack-flagged class, or a damaged datagram that still made the handler "
     "react."
@@ -41,7 +50,9 @@ RULE = (
 ASSUMPTIONS = [
     "well-formed = magic '2B', version 0, exactly the type bits of the class (+ option bit iff >=1 option), options from the "
     "documented table with their documented lengths, payload a complete HDAP message (RRS built by the reference encoder; "
-    "other services: vectors captured in the repository's tests, TMP text messages built by the reference encoder); acks and "
+    "other services: vectors captured in the repository's tests, and RCP / LP / TMP / RRS-answer PDUs built by the reference encoder in the "
+    "layouts the library's parsers implement with enumerated fields taken from their documented values - RCP opcodes the library lists but does "
+    "not parse are not generated, the handler treats them as undecodable datagrams); acks and "
     "heartbeats carry no payload.  Everything else (other versions, several type bits, ack with payload, ...) only occurs in "
     "the 'damaged' class, which is judged by upper bounds only",
     "the statement leaves open whether an ack-flagged connect/close changes the connected flag: after such a datagram the model "
@@ -141,6 +152,20 @@ def build_payload(p) -> bytes:
         return R.enc_tmp_message(bool(t["group"]), t["rid"], bytes.fromhex(t["dst"]), bytes.fromhex(t["src"]), bytes.fromhex(t["text_hex"]))
     if "hex" in p:
         return bytes.fromhex(p["hex"])
+    if "svc" in p:  # a PDU of RCP / LP / TMP / RRS (answer forms) whose address / id slots carry the given octets
+        ids = [bytes.fromhex(h) for h in p["ids"]]
+        m, blob, rel = int(p.get("m", 0)), bytes.fromhex(p.get("blob", "")), bool(p.get("reliable"))
+        if p["svc"] == "rcp":
+            return R.enc_rcp(p["form"], ids, m, blob, reliable=rel)
+        if p["svc"] == "lp":
+            return R.enc_lp(p["form"], ids, m, reliable=rel)
+        if p["svc"] == "tmp":
+            return R.enc_tmp(p["form"], ids, m, blob, option=None if p.get("opt") is None else bytes.fromhex(p["opt"]), reliable=rel, confirmed=bool(p.get("confirmed")))
+        if p["svc"] == "rrs":
+            if p["form"] == "registration_answer":
+                return R.enc_rrs(R.RRS_ANSWER, ids[0], reliable=rel, result=m % 3, renew=[1, 60, 300, 0xFFFE][(m // 3) % 4])
+            if p["form"] == "status_check_answer":
+                return R.enc_rrs(R.RRS_STATUS_ANSWER, ids[0], reliable=rel, state=m % 2)
     raise ValueError(f"bad payload description {p}")
 
 
@@ -291,6 +316,11 @@ class Runner:
             self.connected, self.registry = False, {}
             self.real.sn = int(op.get("sn", 0))
             self.st["init_sn"] += 1 if op.get("sn") else 0
+            return
+        if k == "block":  # ops generated together: a datagram that carries a radio's address octets and that radio's RRS messages
+            self.st["related_blocks"] = self.st.get("related_blocks", 0) + 1
+            for o in op["ops"]:
+                self.apply(o)
             return
         if k == "repeat":  # the same op, or the same short block of ops, n times
             block = op["ops"] if "ops" in op else [op["op"]]
@@ -486,7 +516,8 @@ class Runner:
                            ("registration_after_offline", s["reg_after_offline"]), ("ack_is_exact_echo_of_type_and_options", s["ack_exact_echo"]),
                            ("ack_of_other_form", s["ack_other_form"]), ("preset_sn_counter", s["init_sn"]), ("plain_hstrp_handler", self.kind == "hstrp"),
                            ("repeat_block_2_to_9_times", 2 <= s.get("longest_repeat", 0) < 10), ("repeat_block_10_to_99_times", 10 <= s.get("longest_repeat", 0) < 100),
-                           ("repeat_block_100_or_more_times", s.get("longest_repeat", 0) >= 100)]:
+                           ("repeat_block_100_or_more_times", s.get("longest_repeat", 0) >= 100),
+                           ("related_value_block", s.get("related_blocks", 0))]:
             if flag:
                 out.append(name)
         return out
@@ -512,8 +543,8 @@ class PairRunner:
         self.opc = collections.Counter()
 
     def apply(self, op):
-        if op["k"] == "repeat":
-            for _ in range(op["n"]):
+        if op["k"] in ("repeat", "block"):
+            for _ in range(op.get("n", 1)):
                 for o in op["ops"] if "ops" in op else [op["op"]]:
                     self.apply(o)
             return
@@ -845,6 +876,128 @@ def drv_pair(ctx: Ctx, sub: SubCheck):
     ctx.shards(rnd, list(range(16)))
 
 
+
+# ---------------------------------------------------------------- related values: carriers of a radio's address octets (round 7)
+#
+# A radio's four address octets also travel in PDUs of the other HDAP services (RCP - little endian -, LP, TMP, RRS answers), in
+# DeviceID options and in texts; the handler parses those PDUs under every packet type and formats some of them for its log
+# (reject branch, "RRS did not handle").  Whatever such a datagram makes the library remember about the four octets must not
+# reach the RRS messages of the radio with that address - or with the octet-reversed address.  These histories need addresses
+# that the process has never parsed before: every history gets its own.
+
+CARRIER_FORMS = ([("rcp", f) for f in R.RCP_FORMS] + [("lp", f) for f in R.LP_FORMS] + [("tmp", f) for f in R.TMP_FORMS]
+                 + [("rrs", "registration_answer"), ("rrs", "status_check_answer"), ("rrs_request", "rrs_register"), ("rrs_request", "rrs_offline"),
+                    ("rrs_request", "rrs_status"), ("text", "tmp_text"), ("option", "device_id")])
+CARRIER_TYPES = {"data": 0, "reject": R.REJECT, "ack": R.ACK, "connect": R.CONNECT, "close": R.CLOSE, "heartbeat": R.HEARTBEAT, "connect_ack": R.CONNECT | R.ACK,
+                 "reject_ack": R.REJECT | R.ACK}
+_CARRIER_OPTS = [[], [[3, "0001869f"], [4, "02"]], [[4, "01"]]]
+
+
+def carrier_op(svc: str, form: str, ids, m: int, ctype: str, src: int = 0) -> dict:
+    """the datagram of HSTRP type ``ctype`` whose payload (option / text) of the given form carries the octets ``ids`` (hex8 strings)"""
+    opts = _CARRIER_OPTS[m % 3]
+    sn = [0, 1, 0x1234, 0xFFFF][m % 4]
+    blob = ["", "680069002100", "4142", "00d8"][(m // 4) % 4]  # text / alias / short data octets ("hi!", odd-looking, a lone surrogate)
+    if svc == "option":
+        opts = [[3, ids[0]]] + ([[4, "02"]] if m % 2 else [])
+        pl = {"other": m}
+    elif svc == "rrs_request":
+        pl = {"rrs": form, "radio": ids[0], "reliable": bool(m % 2)}
+    elif svc == "text":
+        pl = {"tmp_raw": {"group": bool(m % 2), "rid": m, "dst": ids[1 % len(ids)], "src": "0a000001", "text_hex": ids[0] + ids[1 % len(ids)]}}
+    else:
+        pl = {"svc": svc, "form": form, "ids": list(ids), "m": m, "blob": blob, "reliable": bool((m // 2) % 2)}
+        if svc == "tmp":
+            pl["opt"] = [None, "", "0102" + ids[0]][m % 3]
+            pl["confirmed"] = bool(m % 2)
+    data = {"k": "d", "cls": "data_other", "src": src, "sn": sn, "opts": opts, "pl": pl}
+    if ctype == "data" and svc != "rrs_request":
+        return data
+    if ctype == "data":  # a data datagram with an RRS request IS that radio's message: judged as such
+        return {"k": "d", "cls": form, "src": src, "sn": sn, "opts": opts, "radio": ids[0], "reliable": bool(m % 2)}
+    if ctype == "reject":
+        return dict(data, cls="reject")
+    return {"k": "d", "cls": "damaged", "src": src, "base": data, "set_type": CARRIER_TYPES[ctype] | (R.OPT if opts else 0)}
+
+
+def _rrs(cls, radio, p, src=0):
+    return {"k": "d", "cls": cls, "src": src, "sn": _EXH_SN[p % 6], "opts": _EXH_OPTS[p % 4], "radio": radio, "reliable": bool(p % 2)}
+
+
+def related_history(svc, form, ctype, arrangement, template, v: str, m: int):
+    """v: the radio's address (hex8); w: the octet-reversed address"""
+    w = bytes.fromhex(v)[::-1].hex()
+    ids = {"asis": [v, v, v], "reversed": [w, w, w], "mixed": [v, w, v]}[arrangement]
+    other = {"asis": [w, w, w], "reversed": [v, v, v], "mixed": [w, v, w]}[arrangement]
+    c = carrier_op(svc, form, ids, m, ctype)
+    c2 = carrier_op(svc, form, other, m + 1, ctype)
+    connect = {"k": "d", "cls": "connect", "src": 0, "sn": 0, "opts": []}
+    if template == "carrier_first":
+        return [connect, c, _rrs("rrs_register", v, 1), c, _rrs("rrs_offline", v, 2), _rrs("rrs_register", w, 3), _rrs("rrs_status", v, 4)]
+    if template == "register_first":
+        return [_rrs("rrs_register", v, 0), c, _rrs("rrs_offline", v, 1), c2, _rrs("rrs_register", v, 2), _rrs("rrs_offline", w, 3)]
+    if template == "offline_first":
+        return [c, _rrs("rrs_offline", v, 0), c, _rrs("rrs_register", v, 1), c2, _rrs("rrs_status", w, 2), _rrs("rrs_register", w, 3)]
+    if template == "both_orders":
+        return [c, c2, _rrs("rrs_register", v, 0), _rrs("rrs_register", w, 1), c2, c, _rrs("rrs_offline", v, 2)]
+    if template == "near_twins":  # radios that differ from v only in the first octet (subnet) / only in the last octet / only in one middle octet
+        b = bytes.fromhex(v)
+        t1, t2, t3 = bytes([b[0] ^ 1]) + b[1:], b[:3] + bytes([b[3] ^ 0x80]), b[:1] + bytes([b[1] ^ 0xFF]) + b[2:]
+        return [_rrs("rrs_register", v, 0), _rrs("rrs_register", t1.hex(), 1), c, _rrs("rrs_offline", v, 2), _rrs("rrs_register", t2.hex(), 3), _rrs("rrs_offline", t1.hex(), 4),
+                carrier_op(svc, form, [t1.hex(), t2.hex(), t3.hex()], m + 2, ctype), _rrs("rrs_offline", t3.hex(), 5), _rrs("rrs_register", v, 0), _rrs("rrs_status", t2.hex(), 1)]
+    raise ValueError(template)
+
+
+RELATED_TEMPLATES = ["carrier_first", "register_first", "offline_first", "both_orders", "near_twins"]
+
+
+def fresh_radios(label: str, n: int):
+    """n addresses (hex8), deterministic, pairwise distinct together with their octet-reversed images, none a palindrome, none in the
+    10.x pool the other sub-checks use"""
+    import hashlib
+
+    out, seen, i = [], set(), 0
+    while len(out) < n:
+        b = hashlib.sha256(f"{label}/{i}".encode()).digest()[:4]
+        i += 1
+        twins = [bytes([b[0] ^ 1]) + b[1:], b[:3] + bytes([b[3] ^ 0x80]), b[:1] + bytes([b[1] ^ 0xFF]) + b[2:]]  # see template near_twins
+        group = [x for t in [b] + twins for x in (t, t[::-1])]
+        if b == b[::-1] or b[0] in (10, 11) or b[3] in (10, 11) or any(x in seen for x in group):
+            continue
+        seen.update(group)
+        out.append(b.hex())
+    return out
+
+
+def drv_related(ctx: Ctx, sub: SubCheck):
+    arrangements = ["asis", "reversed"]
+    combos = [(fi, ctype, arr, tpl) for fi in range(len(CARRIER_FORMS)) for ctype in CARRIER_TYPES for arr in arrangements for tpl in RELATED_TEMPLATES]
+    # 'mixed' arrangement (both orders of the octets in one PDU): forms with two or more slots
+    combos += [(fi, ctype, "mixed", tpl) for fi, (svc, _) in enumerate(CARRIER_FORMS) if svc in ("rcp", "tmp", "lp") for ctype in ("data", "reject", "ack") for tpl in RELATED_TEMPLATES]
+    radios = fresh_radios(f"{sub.name}/{ctx.seed}", len(combos))
+    items = list(range(len(CARRIER_FORMS)))
+
+    def work(fi, t: Tally):
+        for idx, (f, ctype, arr, tpl) in enumerate(combos):
+            if f != fi:
+                continue
+            svc, form = CARRIER_FORMS[f]
+            ops = related_history(svc, form, ctype, arr, tpl, radios[idx], idx)
+            ctx.run_case(sub.name, oracle_history, {"ops": ops}, t)
+            t.case(sub.name, nontrivial=True, cls=f"carrier_{ctype}")
+            t.cls(sub.name, f"payload_{svc}")
+            t.cls(sub.name, f"template_{tpl}")
+            if idx % 97 == 0:
+                t.sample(sub.name, {"carrier": [svc, form, ctype, arr], "template": tpl, "radio": radios[idx]})
+
+    ctx.shards(work, items)
+    ctx.tally.notes.append(
+        f"{sub.name}: {len(combos)} histories = {len(CARRIER_FORMS)} carrier forms (every RCP / LP / TMP / RRS PDU layout the library parses, DeviceID option, text) x "
+        f"{len(CARRIER_TYPES)} HSTRP packet types x octet order x {len(RELATED_TEMPLATES)} orders of carrier and the radio's own RRS messages; every history uses a radio address "
+        f"that no earlier history of the process used"
+    )
+
+
 # ---------------------------------------------------------------------------------------------------- random part
 
 
@@ -925,6 +1078,31 @@ def _strategies(pair: bool = False, long_runs: bool = True):
     # (quick: runs up to 33 here - class_runs covers 300 deterministically; thorough: the whole list)
     n_rep = (st.one_of(small, small, st.sampled_from(REPEAT_COUNTS)) if long_runs else small) if not pair else st.sampled_from([2, 3, 5, 10, 11, 17])
     rules["repeat"] = st.fixed_dictionaries({"k": st.just("repeat"), "n": n_rep, "ops": block})
+    if not pair:
+        # a radio address the process has (almost surely) never parsed: a bijective scramble of the drawn integer, so that the small and
+        # boundary integers Hypothesis favours do not map to the same few addresses
+        fresh = st.integers(0, 2**32 - 1).map(lambda n: ((n * 0x9E3779B1 + 0x7F4A7C15) & 0xFFFFFFFF).to_bytes(4, "big").hex())
+        rrs_cls = st.sampled_from(["rrs_register", "rrs_register", "rrs_offline", "rrs_status"])
+
+        def mk_related(v, carriers, m, fillers, follow, again, srcs):
+            w = bytes.fromhex(v)[::-1].hex()
+            ops = []
+            for j, (fi, ctype, arr) in enumerate(carriers):
+                svc, form = CARRIER_FORMS[fi]
+                ids = {"asis": [v, v, v], "reversed": [w, w, w], "mixed": [v, w, v]}[arr]
+                ops.append(carrier_op(svc, form, ids, m + j, ctype, src=srcs[0]))
+            ops += list(fillers)
+            for i, (cls, rev) in enumerate(follow):
+                ops.append(_rrs(cls, w if rev else v, m + i, src=srcs[1]))
+            if again:
+                ops.append(dict(ops[0]))
+                ops.append(_rrs("rrs_offline" if follow[0][0] == "rrs_register" else "rrs_register", v, m + 5, src=srcs[1]))
+            return {"k": "block", "ops": ops}
+
+        ctypes = st.sampled_from(["reject"] * 4 + ["data"] * 3 + sorted(CARRIER_TYPES))
+        carrier = st.tuples(st.integers(0, len(CARRIER_FORMS) - 1), ctypes, st.sampled_from(["asis", "asis", "reversed", "mixed"]))
+        rules["related"] = st.builds(mk_related, fresh, st.lists(carrier, min_size=1, max_size=3), st.integers(0, 4000), st.lists(anyop, max_size=2),
+                                     st.lists(st.tuples(rrs_cls, st.booleans()), min_size=1, max_size=3), st.booleans(), st.tuples(src, src))
     return rules
 
 
@@ -985,10 +1163,90 @@ def drv_long(ctx: Ctx, sub: SubCheck):
     ctx.tally.case(sub.name, key={"history": "66000 registration requests to a fresh handler, then going-offline"}, nontrivial=True, cls="registrations_66000")
 
 
+# ------------------------------------------------------------------------------------------------ preludes (stimulus only)
+
+
+def _case_radios(case, limit=4):
+    """4-octet address / id values (hex8) that occur in the case, in order of first occurrence"""
+    found = []
+
+    def walk(x):
+        if len(found) >= limit:
+            return
+        if isinstance(x, dict):
+            for k, v in x.items():
+                if k == "radio" and isinstance(v, str) and len(v) == 8 and v not in found:
+                    found.append(v)
+                elif k == "ids" and isinstance(v, list):
+                    for h in v:
+                        if isinstance(h, str) and len(h) == 8 and h not in found:
+                            found.append(h)
+                else:
+                    walk(v)
+        elif isinstance(x, list):
+            for v in x:
+                walk(v)
+
+    walk(case)
+    return found[:limit]
+
+
+def _op_sibling_parses(a):
+    """the same four octets (and their reversed image) through every other entry point that reads a radio address / id"""
+    from okdmr.dmrlib.hytera.pdu.hdap import HDAP
+    from okdmr.dmrlib.hytera.pdu.hstrp import HSTRP
+    from okdmr.dmrlib.hytera.pdu.radio_ip import RadioIP
+
+    v = bytes.fromhex(a["radio"])
+    for fn in (lambda: RadioIP.from_bytes(v, endian="little"), lambda: RadioIP.from_bytes(v[::-1]), lambda: RadioIP.from_ip(R.ip_str(v[::-1])),
+               lambda: RadioIP.from_ip(R.ip_str(v), endian="little"), lambda: repr(RadioIP(radio_id=v[1:], subnet=v[0])), lambda: RadioIP.from_bytes(v[:3])):
+        try:
+            fn()
+        except Exception:
+            pass
+    for svc, form in CARRIER_FORMS[a.get("m", 0) % 5 :: 5]:  # a fifth of the forms per call
+        for ids in ([v.hex()] * 3, [v[::-1].hex()] * 3):
+            try:
+                raw = build(carrier_op(svc, form, ids, a.get("m", 0), "reject"))
+                repr(HSTRP.from_bytes(raw))
+                pdu = HDAP.from_bytes(R.dec_hstrp(raw, tolerant_options=True)["payload"])
+                repr(pdu)
+                pdu.as_bytes()
+            except Exception:
+                pass
+
+
+def _op_other_handler(a):
+    """another handler instance (the sibling object) sees the octet-reversed radios register / go offline, carriers, a refused datagram"""
+    h, _ = make_handler(a.get("handler", "rrs"))
+    for i, hx in enumerate(a["radios"]):
+        w = bytes.fromhex(hx)[::-1].hex()
+        for op in ([{"k": "d", "cls": "connect", "src": 1, "sn": 0, "opts": []}] if i == 0 else []) + [
+                carrier_op("rcp", "radio_ip_query_reply", [hx], i, "reject"), _rrs("rrs_register", w, i, src=1), _rrs("rrs_offline", hx, i + 1, src=1),
+                {"k": "d", "cls": "damaged", "src": 1, "base": _rrs("rrs_register", hx, i), "trunc": 21 + i}, {"k": "d", "cls": "close", "src": 1, "sn": 0, "opts": []}][: 4 + a.get("n", 2)]:
+            try:
+                h.datagram_received(build(op), tuple(PEERS[1]))
+            except Exception:
+                pass
+
+
+PRELUDE_OPS = {"sibling_parses": _op_sibling_parses, "other_handler": _op_other_handler}
+
+
+def prelude_for(sub, case, rng):
+    radios = _case_radios(case)
+    if not radios:
+        radios = [RADIOS[rng.randrange(len(RADIOS))]]
+    calls = [{"x": "sibling_parses", "a": {"radio": r, "m": rng.randrange(4000)}} for r in radios[:2]]
+    calls.append({"x": "other_handler", "a": {"radios": radios[:3], "handler": "rrs", "n": rng.randrange(3)}})
+    return calls
+
+
 SUBCHECKS = [
     SubCheck("exhaustive_class_sequences", oracle_history, drv_exhaustive, "all sequences over the 12 datagram classes up to length 5 (quick) / 6 (thorough) vs the reference model"),
     SubCheck("random_histories", oracle_history, drv_random, "Hypothesis RuleBasedStateMachine histories (<= 60 / 200 datagrams) with random fields, truncation and bit corruption"),
     SubCheck("class_runs", oracle_history, drv_runs, "every class repeated 300 (quick) / 1000 (thorough) times in each mode {fresh, connected, closed}, both handler kinds, also interleaved with garbage / acks"),
+    SubCheck("related_value_histories", oracle_history, drv_related, "a datagram of every packet type carrying a radio's address octets (either order) in a PDU of every other HDAP service / option / text, before and between that radio's own RRS messages; fresh address per history"),
     SubCheck("back_to_back_quiescence", oracle_pair, drv_pair, "two handlers wired back to back: quiescent after <= 3 deliveries per injected datagram"),
     SubCheck("counter_wrap_long_run", oracle_history, drv_long, "66 000 registration requests to one fresh handler (own S/N crosses 2^16)", tiers=("thorough",)),
 ]
